@@ -310,7 +310,12 @@ Definition downward (s : shape) : bool :=
   match s with ShMove _ | ShRet _ => true | _ => false end.
 
 Definition shape_delta_ok (s : shape) : bool :=
-  match s with ShMove d | ShRet d => d <=? 0 | _ => true end.
+  match s with
+  | ShMove d | ShRet d => d <=? 0
+  | ShPop k | ShRangeDeref k => 0 <=? k
+  | ShSlide q m => (0 <=? q) && (0 <=? m)      (* unsigned operands; shape_of clamps them *)
+  | _ => true
+  end.
 
 (* ---- a run of plans with a configured stack size -------------------------------------- *)
 
